@@ -1,8 +1,10 @@
 """C02 — no lost wake-up; enqueued work eventually runs (DESIGN.md §3 C02).
 
-Theorems (lean/TbbVerif/Props/C02.lean): Monitor (N sleepers x M notifiers, all schedules, access granularity),
-BinSem (futex word), Tso (1x1 monitor instance with store buffers, parameterised by the observed Orders), Flag
-(arena's three-state flag), WaitCtx (Monitor + wait_context reference counter).
+Theorems (lean/TbbVerif/Props/C02.lean): Monitor (N sleepers x M notifiers, all schedules, access granularity; every
+notify entry point incl. notify_one_relaxed(pred): which node its scan dequeues, at most one, none matching => none,
+no lost wake-up for K contexts with one waiter each = mutexes sharing an address_waiter bucket), BinSem (futex word),
+Tso (1x1 monitor instance with store buffers, parameterised by the observed Orders), Flag (arena's three-state flag),
+WaitCtx (Monitor + wait_context reference counter).
 
 Tie, on every run, against the current tree of /repo:
   * E-SHIM component harnesses on the REAL concurrent_monitor.h + semaphore.h (harness/c02/mon.cpp), the REAL
@@ -11,11 +13,17 @@ Tie, on every run, against the current tree of /repo:
     thread parked; parked-while-predicate-true; V on an open semaphore; flag UNSET with work; demand accounting);
     random schedules + bounded-preemption DFS;
   * the memory orders observed in the trace regenerate Generated/C02.lean (Orders) -> `fences_ok_observed` is a checked
-    obligation of the Lean build;
+    obligation of the Lean build; so does the dequeue ORDER of every notify entry point on wait sets with a known
+    arrival order (scanObs) -> `scan_order_observed`;
+  * wait sets with >= 2 sleepers of different contexts, both arrival orders (harness gates), first match = the older /
+    the newer / oldest / middle / newest node, for every notify entry point (mon_order_scenarios), with the
+    implementation-side monitors LOST-WAKEUP, WRONG-CONTEXT-WAKEUP, UNLOCKED-WAITSET-WRITE, DOUBLE-V;
   * the whole instrumented runtime (common.shim_runtime_objects) in end-to-end scenarios where a lost wake-up is a
     deadlock of the controlled scheduler (task_group wait, enqueue with nobody waiting, mandatory concurrency, bounded
     queue, tbb::mutex, tbb::rw_mutex) + the notify-site rule (no plain store between the last drain and the racy
-    emptiness test of a notify).
+    emptiness test of a notify); rt2.cpp: tbb::mutex / rw_mutex objects colliding in ONE address_waiter bucket (bucket
+    found by calibration, not by replicating the hash) with one sleeping waiter each, and the two-arena family
+    "enqueue into B vs spawn-only demand of C" under a zero-worker soft limit.
 Failing-input search: bounded-preemption DFS / more schedules with the monitors; for a broken fence obligation the
 executable TSO explorer of the Lean model with the observed Orders (model-level schedule, said so in the replay).
 """
@@ -42,6 +50,13 @@ def build_comp(name):
 def build_rt():
     objs = common.shim_runtime_objects()
     return cxx_build("C02", "rt", ["harness/c02/rt.cpp", common.SHIM_SRC],
+                     flags=["-O1", "-g", "-fno-access-control", "-D__TBB_BUILD", "-I" + REPO + "/src"] + common.SHIM_FLAGS,
+                     libs=objs + ["-ldl"])
+
+
+def build_rt2():
+    objs = common.shim_runtime_objects()
+    return cxx_build("C02", "rt2", ["harness/c02/rt2.cpp", common.SHIM_SRC],
                      flags=["-O1", "-g", "-fno-access-control", "-D__TBB_BUILD", "-I" + REPO + "/src"] + common.SHIM_FLAGS,
                      libs=objs + ["-ldl"])
 
@@ -140,12 +155,19 @@ def monitor_abstraction(evs):
     return out, dropped_loads
 
 
+def model_scenario(scn):
+    """the scenario as the Lean model sees it: the arrival-order gates `g,<k>` are harness-only (they perform no access
+    to the monitor; their spin loops are unnamed accesses, not part of the trace)"""
+    return "\n".join(" ".join(w for w in l.split() if not w.startswith("g,")) for l in scn.strip().split("\n"))
+
+
 def replay_monitor(scn, run, stats):
     ab, dropped = monitor_abstraction(run["ev"])
     stats["dropped_loads"] += dropped
-    lines = ["reset"] + scn.strip().split("\n") + ["s %d" % t for t, _ in ab] + ["state", "left"]
+    mscn = model_scenario(scn)
+    lines = ["reset"] + mscn.split("\n") + ["s %d" % t for t, _ in ab] + ["state", "left"]
     out = drv("c02mon", "\n".join(lines) + "\n")
-    n0 = 1 + len(scn.strip().split("\n"))
+    n0 = 1 + len(mscn.split("\n"))
     stronger = [0]
     for i, (t, c) in enumerate(ab):
         if not same_access(c, out[n0 + i], stronger):
@@ -333,6 +355,44 @@ def observe_orders(mon_exe, rt_exe):
     return obs
 
 
+# wait sets (contexts, oldest first) x notification for which the dequeue order is observed and regenerated
+SCAN_OBS = [([1, 2, 1], "p1"), ([1, 2, 1], "c1"), ([1, 2, 3], "p1"), ([1, 2, 3], "p2"), ([1, 2, 3], "p3"), ([1, 2, 3], "p9"),
+            ([1, 2, 3], "c1"), ([1, 2, 3], "c3"), ([2, 1, 1], "p1"), ([1, 1, 2], "p1"), ([1, 1, 2], "c1"), ([1, 2, 3], "one"),
+            ([1, 2], "all"), ([2, 1], "abort"), ([1, 2], "c7")]
+
+
+def lean_kind(tok):
+    return {"all": ".all", "one": ".one", "abort": ".abort"}.get(tok) or (".ctx %s" % tok[1:] if tok[0] == "c" else ".onec %s" % tok[1:])
+
+
+def observe_scan(mon_exe):
+    """For each (wait set with known arrival order, notification): which nodes did the notifier dequeue, in which order
+    (the `my_is_in_list.store(false)` accesses inside its critical section), as executed by the real code."""
+    obs = []
+    for ctxs, kind in SCAN_OBS:
+        n = len(ctxs)
+        scn = "\n".join("S %sw,%d,%d" % ("g,%d " % i if i else "", c, i) for i, c in enumerate(ctxs))
+        scn += "\nN g,%d sig,-,%s,r sig,-,all,f" % (n, kind)
+        rc, out, err = sh([mon_exe, "rand", "1", "1"], input=scn + "\n", timeout=60)
+        runs = parse_runs(out)
+        if not runs:
+            return None, "no trace for %s %s: rc=%d %s" % (ctxs, kind, rc, (out + err)[-300:])
+        ev = [e for e in runs[0]["ev"] if e[0] == str(n) and e[1] != "note"]
+        seq, inside, seen = [], False, False
+        for e in ev:
+            if e[2] == "mflag" and e[1] == "xchg":
+                if e[4] == "0" and e[5] == "1" and not seen:
+                    inside = seen = True
+                elif e[5] == "0":
+                    inside = False
+            elif inside and e[1] == "store" and e[2].startswith("inl") and e[4] == "0":
+                seq.append(int(e[2][3:]))
+        if not seen and kind != "p9" and kind != "c7":
+            return None, "notifier never entered its critical section for %s %s" % (ctxs, kind)
+        obs.append((ctxs, kind, seq))
+    return obs, ""
+
+
 def b(x):
     return "true" if x else "false"
 
@@ -348,7 +408,13 @@ def gen(ck, mon_exe, rt_exe):
     body += "def ordersPortable : Orders := ⟨prepFence, unlockRmw, notifyFence, chgRmw, false⟩\n"
     body += "def enqueueFence : Bool := %s\n" % b(obs["enqueueFence"])
     body += "def sites : List (String × String × String × String) := [%s]\n" % ", ".join('("%s", "%s", "%s", "%s")' % s for s in obs["sites"])
+    sobs, why = observe_scan(mon_exe)
+    ck.extra["observed_dequeue_order"] = ["%s %s -> %s" % (c, k, q) for c, k, q in (sobs or [])]
+    body += "open TbbVerif.C02 in\ndef scanObs : List (List Nat × NKind × List Nat) := [%s]\n" % ", ".join(
+        "(%s, %s, %s)" % (c, lean_kind(k), q) for c, k, q in (sobs or []))
     gen_write("C02", body, imports=("TbbVerif.Core.Cint", "TbbVerif.Model.C02"))
+    ck.oblige("gen:dequeue order of every notify entry point observed on wait sets with known arrival order (%d shapes)" % len(SCAN_OBS),
+              "generated", sobs is not None, why)
     ck.oblige("gen:Orders regenerated from the E-SHIM trace (sleeper / notifier / enqueue sites found)", "generated",
               set(obs["found"]) == {"sleeper", "notifier", "enqueue"}, "found %s" % obs["found"])
     return obs
@@ -378,6 +444,53 @@ MON_CORPUS = [
 ]
 MON_DFS = [0, 1, 2, 3, 5, 6]      # corpus indices explored exhaustively (bounded preemption)
 
+# every notify entry point of concurrent_monitor.h: (kind token builder, relaxed flag)
+ENTRY_POINTS = [("c", "f"), ("c", "r"), ("p", "f"), ("p", "r"), ("one", "f"), ("one", "r"),
+                ("all", "f"), ("all", "r"), ("abort", "f"), ("abort", "r")]
+
+
+def mon_order_scenarios():
+    """Wait sets with >= 2 sleepers of DIFFERENT contexts and a KNOWN arrival order (gates), for every notify entry
+    point, both arrival orders, and both targets: the first notification's predicate matches only the OLDER waiter /
+    only the NEWER waiter; plus 3-sleeper sets where the only match is the oldest / the middle / the newest node and
+    sets with two matching nodes (notify_one(pred) must take the newest one, notify(pred) both, newest first).
+    Sleeper 0 has context 1 and waits on cond0, sleeper 1 context 2 / cond1, sleeper 2 context 3 / cond2."""
+    out = []
+    for kind, rl in ENTRY_POINTS:
+        for first in (0, 1):                       # which sleeper arrives first (= is the older node)
+            older, newer = first, 1 - first
+            sl = ["S " + ("g,1 " if t == newer else "") + "w,%d,%d" % (t + 1, t) for t in (0, 1)]
+            for target in (older, newer):
+                other = 1 - target
+                if kind in ("c", "p"):
+                    n = "N g,2 sig,%d,%s%d,%s sig,%d,%s%d,%s" % (target, kind, target + 1, rl, other, kind, other + 1, rl)
+                elif kind == "one":
+                    # notify_one has no predicate: it takes the front (oldest) node whatever its context
+                    n = "N g,2 sig,%d,one,%s sig,%d,one,%s sig,-,all,f" % (target, rl, other, rl)
+                else:
+                    n = "N g,2 sig,%d,%s,%s sig,%d,all,f" % (target, kind, rl, other)
+                out.append(("%s-%s:%s-first:%s" % (kind, rl, "s0" if first == 0 else "s1", "older" if target == older else "newer"),
+                            "\n".join(sl) + "\n" + n))
+    # three nodes, arrival order 0,1,2: the single match is the oldest / middle / newest; then the rest
+    for kind, rl in (("c", "f"), ("c", "r"), ("p", "f"), ("p", "r")):
+        for target in (0, 1, 2):
+            rest = [t for t in (2, 1, 0) if t != target]
+            sl = ["S " + ("g,%d " % t if t else "") + "w,%d,%d" % (t + 1, t) for t in (0, 1, 2)]
+            n = "N g,3 " + " ".join("sig,%d,%s%d,%s" % (t, kind, t + 1, rl) for t in [target] + rest)
+            out.append(("%s-%s:3nodes:match-%s" % (kind, rl, ("oldest", "middle", "newest")[target]), "\n".join(sl) + "\n" + n))
+    # two matching nodes (same context 1, conditions 0 and 2) around a non-matching one
+    for kind, rl in (("c", "f"), ("p", "r"), ("p", "f")):
+        sl = ["S w,1,0", "S g,1 w,2,1", "S g,2 w,1,2"]
+        if kind == "p":
+            n = "N g,3 sig,2,p1,%s sig,0,p1,%s sig,1,p2,%s" % (rl, rl, rl)     # newest match first, then the older one
+        else:
+            n = "N g,3 sig,0,c1,%s sig,1,c2,%s sig,2,all,f" % (rl, rl)
+        out.append(("%s-%s:3nodes:two-matches" % (kind, rl), "\n".join(sl) + "\n" + n))
+    return out
+
+
+MON_ORDER_DFS = ("p-r:s0-first:older", "p-f:s1-first:older", "c-r:s0-first:older", "p-r:3nodes:match-oldest")
+
 
 def mon_random_scenario(rng):
     """1-3 sleepers x 1-2 notifiers; every condition a sleeper waits on is eventually signalled by a notification that
@@ -393,13 +506,25 @@ def mon_random_scenario(rng):
         sl.append(ops)
     nn = rng.choice([1, 2, 2])
     nt = [[] for _ in range(nn)]
+    nwaits = [sum(1 for ops in sl for o in ops if o.endswith(",%d" % c)) for c in range(nconds)]
     for c in range(nconds):
-        kind = rng.choice(["c%d" % ctx_of[c], "c%d" % ctx_of[c], "all", "abort"])
-        nt[rng.randrange(nn)].append("sig,%d,%s,%s" % (c, kind, rng.choice("ffr")))
+        kinds = ["c%d" % ctx_of[c], "c%d" % ctx_of[c], "all", "abort"]
+        if nwaits[c] == 1 and ctx_of.count(ctx_of[c]) == 1:
+            # notify_one_relaxed(pred) wakes ONE matching waiter: usable as the only announcement when a single wait has that context
+            kinds += ["p%d" % ctx_of[c]] * 3
+        nt[rng.randrange(nn)].append("sig,%d,%s,%s" % (c, rng.choice(kinds), rng.choice("ffr")))
     for q in nt:
         for _ in range(rng.choice([0, 0, 1])):       # spurious notifications without a state change
-            q.insert(rng.randrange(len(q) + 1), "sig,-,%s,%s" % (rng.choice(["one", "all", "c1", "c2"]), rng.choice("fr")))
+            # (a context nobody waits with: a spurious notify_one(pred) must not steal... it wakes nobody)
+            q.insert(rng.randrange(len(q) + 1), "sig,-,%s,%s" % (rng.choice(["one", "all", "c1", "c2", "p9", "p8"]), rng.choice("fr")))
     nt = [q for q in nt if q] or [["sig,-,all,f"]]
+    sl = [list(o) for o in sl]
+    if len(sl) >= 2 and rng.randrange(3) == 0:
+        # known arrival order: sleeper k's first wait starts after k nodes were enqueued, the notifiers after all first waits
+        for k in range(1, len(sl)):
+            sl[k][0] = "g,%d %s" % (k, sl[k][0])
+        for q in nt:
+            q[0] = "g,%d %s" % (len(sl), q[0])
     return "\n".join("S " + " ".join(o) for o in sl) + "\n" + "\n".join("N " + " ".join(q) for q in nt)
 
 
@@ -414,14 +539,34 @@ FLAG_CORPUS = ["P 1\nC 1\nT", "P 2\nC 1\nT 1", "P 1 1\nC 1 1\nT 2", "P 2\nC 2\nT
 
 RT_SCENARIOS = ["tg2", "tg3", "enq2", "enq3", "enq1r", "enq0w", "enq2a", "bq", "bq2", "mtx2", "mtx3", "rw"]
 
+# rt2.cpp: mutexes colliding in one address_waiter bucket (types x arrival order x which waiter's mutex is unlocked first)
+RT2_COLL = ["coll.%s.%s.%s" % (ty, first, tg) for ty in ("mm", "rr", "mr", "rm") for first in "ab" for tg in ("older", "newer")] + \
+           ["coll.%s.a.%s" % (ty, tg) for ty in ("mmm", "mrm") for tg in ("oldest", "middle", "newest")]
+# rt2.cpp: zero-worker soft limit, enqueue into arena B vs spawn-only demand of arena C (creation order x priorities x variant)
+RT2_ENQSP = ["enqsp.%s.%s.%s.%s.%d" % (o, pb, pc, v, 1 + (i + j + len(o + v)) % 3)
+             for o in ("bc", "cb") for i, pb in enumerate("lnh") for j, pc in enumerate("lnh") for v in "ws"]
+
+
+def rt2_shape(sc):
+    """counterexample key naming the shape of an rt2 scenario"""
+    p = sc.split(".")
+    if p[0] == "coll":
+        return "mutex-bucket-collision:%s:%s-waiter" % (p[1], p[3])
+    if p[0] == "enqsp":
+        return "two-arenas:enqueue-vs-spawn-demand:%s:prio-%s%s:%s" % ({"bc": "B-created-first", "cb": "C-created-first"}[p[1]], p[2], p[3],
+                                                                      {"w": "owner-waits", "s": "owner-busy"}[p[4]])
+    return sc
+
 
 # ----------------------------------------------------------------------------------------------------------------
 # the check
 # ----------------------------------------------------------------------------------------------------------------
 
-def cex_monitor(ck, family, scn, r, args=None):
+def cex_monitor(ck, family, scn, r, args=None, shape=None):
     verdict = r["mon"] or "?"
-    key = "%s:%s" % (family, verdict.split(" ")[0])
+    if family == "mon" and shape is None:
+        shape = next((name for name, sc in mon_order_scenarios() if sc == scn), None)
+    key = "%s:%s" % (family + (":" + shape if shape else ""), verdict.split(" ")[0])
     ck.counterexample(key, "%s: %s | scenario %s | schedule of %d steps" % (family, verdict, scn.replace("\n", " / "), len(r["sched"])),
                       {"engine": "E-SHIM", "harness": family, "scenario": scn, "args": args or [], "schedule": r["sched"],
                        "monitor": verdict, "trace": [" ".join(e) for e in r.get("ev", [])][:300]})
@@ -429,13 +574,16 @@ def cex_monitor(ck, family, scn, r, args=None):
 
 def run_mon(ck, exe):
     quick = ck.tier == "quick"
-    scs = MON_CORPUS + [mon_random_scenario(ck.rng) for _ in range(100 if quick else 300)]
     nrand = 25 if quick else 40
+    order = mon_order_scenarios()
+    scs = [(scn, nrand, None) for scn in MON_CORPUS] + [(scn, 6 if quick else 20, name) for name, scn in order] + \
+          [(mon_random_scenario(ck.rng), nrand, None) for _ in range(100 if quick else 300)]
     stats = {"dropped_loads": 0, "stronger_orders": 0}
     bad_corr, bad_sem, bad_mon = [], [], []
     nruns = nsem = 0
-    for si, scn in enumerate(scs):
-        rc, out, err = sh([exe, "rand", str(ck.seed * 1000 + si), str(nrand)], input=scn + "\n", timeout=300)
+    shapes_seen = {}
+    for si, (scn, nr, shape) in enumerate(scs):
+        rc, out, err = sh([exe, "rand", str(ck.seed * 1000 + si), str(nr)], input=scn + "\n", timeout=300)
         runs = parse_runs(out)
         if rc not in (0, 1, 3) or not runs:
             bad_mon.append((scn, {"mon": "harness rc=%d %s" % (rc, (out + err)[-300:]), "sched": []}))
@@ -447,6 +595,12 @@ def run_mon(ck, exe):
             if r["mon"] != "ok":
                 bad_mon.append((scn, r))
                 continue
+            if shape:
+                # measured: the notifier's first racy emptiness test saw >= 2 enqueued nodes (the gated arrival order held)
+                nt = str(scn.count("\nS") + 1)
+                c0 = next((int(e[4]) for e in r["ev"] if e[0] == nt and e[1] == "load" and e[2] == "count"), 0)
+                if c0 >= 2:
+                    shapes_seen[shape] = shapes_seen.get(shape, 0) + 1
             d = replay_monitor(scn, r, stats)
             ck.traces_validated += 1
             if d:
@@ -458,9 +612,10 @@ def run_mon(ck, exe):
         if si < 2 and runs:
             ck.sample({"harness": "mon", "scenario": scn, "trace_head": [" ".join(e) for e in runs[0]["ev"][:16]], "results": runs[0]["res"]})
     dfs_runs = 0
-    for ci in MON_DFS if not quick else MON_DFS[:5]:
-        scn = MON_CORPUS[ci]
-        rc, out, err = sh([exe, "dfs", "2" if quick else "3", "10000" if quick else "100000"], input=scn + "\n", timeout=1700)
+    dfs_scs = [(MON_CORPUS[ci], "10000" if quick else "100000") for ci in (MON_DFS if not quick else MON_DFS[:5])] + \
+              [(scn, "3000" if quick else "60000") for name, scn in order if name in MON_ORDER_DFS]
+    for scn, budget in dfs_scs:
+        rc, out, err = sh([exe, "dfs", "2" if quick else "3", budget], input=scn + "\n", timeout=1700)
         m = re.search(r"summary runs=(\d+) bad=(\d+)", out)
         if m:
             dfs_runs += int(m.group(1))
@@ -471,6 +626,13 @@ def run_mon(ck, exe):
     ck.extra.setdefault("schedules", {})["monitor"] = {"random_runs": nruns, "dfs_runs": dfs_runs, "binsem_instances": nsem,
                                                         "tolerated_loads_under_lock": stats["dropped_loads"],
                                                         "stronger_orders_tolerated": stats["stronger_orders"]}
+    missing = [name for name, _ in order if not shapes_seen.get(name)]
+    ck.extra["schedules"]["monitor"]["arrival_order_shapes"] = {"shapes": len(order), "exercised": len(order) - len(missing),
+                                                                "runs_with_2plus_nodes_at_the_scan": sum(shapes_seen.values())}
+    ck.oblige("monitor:coverage — every notify entry point (notify, notify_relaxed, notify_one[_relaxed], notify_one_relaxed(pred), "
+              "notify_all[_relaxed], abort_all[_relaxed]) ran against a wait set of >= 2 nodes with different contexts, both arrival orders, "
+              "first match = the older / the newer node (plus oldest / middle / newest of 3 and two matches)", "correspondence",
+              not missing or bool(bad_mon), "shapes never exercised with >= 2 enqueued nodes: %s" % missing[:6])
     ck.oblige("corr:concurrent_monitor access trace (kind, variable, memory order, values, results) replays on the Lean Monitor model",
               "correspondence", not bad_corr,
               "" if not bad_corr else "%s | scenario %s | sched %s" % (bad_corr[0][2], bad_corr[0][0].replace("\n", " / "), " ".join(bad_corr[0][1]["sched"])[:600]))
@@ -478,8 +640,9 @@ def run_mon(ck, exe):
               "" if not bad_sem else "%s | scenario %s" % (bad_sem[0][2], bad_sem[0][0].replace("\n", " / ")))
     ck.oblige("monitor:concurrent_monitor no deadlock / no thread parked while its predicate is true / no double V (random + bounded-preemption DFS)",
               "correspondence", not bad_mon, "" if not bad_mon else "%s | scenario %s" % (bad_mon[0][1]["mon"], bad_mon[0][0].replace("\n", " / ")))
-    for scn, r in bad_mon[:1]:
-        cex_monitor(ck, "mon", scn, r)
+    shaped = {sc: name for name, sc in order}
+    for scn, r in sorted(bad_mon, key=lambda x: (x[0] not in shaped or not x[1].get("sched")))[:1]:
+        cex_monitor(ck, "mon", scn, r, shape=shaped.get(scn))
     return bad_corr or bad_sem, bad_mon
 
 
@@ -601,6 +764,46 @@ def run_rt(ck, exe, scenarios=RT_SCENARIOS, nruns=None, seeds=1):
     return bad, sites["dirty"], dirty_detail or (rmw_detail if sites["rmw"] else ""), sites["rmw"]
 
 
+def run_rt2(ck, exe, scenarios=None, nruns=None, seeds=1):
+    quick = ck.tier == "quick"
+    bad = []
+    total = parks = 0
+    fams = {"coll": 0, "enqsp": 0}
+    for sc in scenarios or (RT2_COLL + RT2_ENQSP):
+        fam = sc.split(".")[0]
+        n = nruns or ((20 if fam == "coll" else 6) if quick else (200 if fam == "coll" else 60))
+        for sd in range(seeds):
+            rc, out, err = sh([exe, sc, "rand", str(ck.seed * 7 + sd * 1009 + len(sc)), str(n)], timeout=1700)
+            m = re.search(r"summary runs=(\d+) bad=(\d+)", out)
+            done = int(m.group(1)) if m else 0
+            total += done
+            fams[fam] = fams.get(fam, 0) + done
+            p = len(re.findall(r" parks=[1-9]", out))
+            parks += p
+            ck.count(done, ("rt2", sc, p > 0))
+            if rc != 0 or not m or m.group(2) != "0":
+                lines = out.split("\n")
+                verdict = next((l for l in lines if l.startswith("run ") and " ok " not in l), "harness rc=%d %s" % (rc, (out + err)[-300:]))
+                sched = next((l.split()[1:] for l in lines if l.startswith("sched")), [])
+                bad.append((sc, verdict, sched))
+                break
+    ck.extra.setdefault("schedules", {})["whole_runtime_2"] = {"runs": total, "runs_with_a_thread_parked_in_a_futex": parks, "per_family": fams}
+    bc = [b for b in bad if b[0].startswith("coll")]
+    be = [b for b in bad if not b[0].startswith("coll")]
+    ck.oblige("monitor:whole instrumented runtime — tbb::mutex / tbb::rw_mutex objects colliding in one address_waiter bucket, one sleeping "
+              "waiter each, both arrival orders: unlocking the mutex of the older / the newer / the middle waiter wakes that waiter "
+              "(no run ends with every thread parked)", "correspondence", not bc, "" if not bc else "%s: %s" % (bc[0][0], bc[0][1]))
+    ck.oblige("monitor:whole instrumented runtime — zero-worker soft limit, two arenas: a task enqueued into arena B (nobody waits there) runs "
+              "although arena C has spawn-only demand (creation orders x priorities low/normal/high x owner waits / owner busy)", "correspondence",
+              not be, "" if not be else "%s: %s" % (be[0][0], be[0][1]))
+    for group in (bc, be):
+        for sc, verdict, sched in group[:1]:
+            ck.counterexample("rt:%s:%s" % (rt2_shape(sc), verdict.split()[2] if len(verdict.split()) > 2 else "?"),
+                              "whole runtime scenario %s: %s (schedule of %d steps)" % (sc, verdict, len(sched)),
+                              {"engine": "E-SHIM", "harness": "rt2", "scenario": sc, "schedule": sched, "monitor": verdict})
+    return bad
+
+
 def tso_explore(flags):
     out = drv("c02tso", "explore " + " ".join("1" if f else "0" for f in flags) + "\n")
     return out[0] if out else "none"
@@ -641,9 +844,13 @@ def search_fences(ck, obs, site_dirty, dirty_detail, site_rmw=0):
 
 def run(ck):
     ck.rule = ("E-SHIM: hand-written + seeded random scenarios (1-3 sleepers x 1-2 notifiers x contexts/conditions, commit / cancel / abort / "
-               "spurious notify paths; publishers x cleaners x consumers for the arena flag; waiters x releasers for wait_context), each under "
+               "spurious notify paths, all 10 notify entry points incl. notify_one_relaxed(pred); 55 arrival-order shapes: >= 2 nodes of different "
+               "contexts, gated arrival order, first match older / newer / oldest / middle / newest; "
+               "publishers x cleaners x consumers for the arena flag; waiters x releasers for wait_context), each under "
                "seeded random schedules with access-by-access replay on the Lean models, plus bounded-preemption DFS of the small scenarios; "
-               "whole instrumented runtime scenarios under seeded random schedules; distinct = (harness, #threads, access kinds seen, results) classes")
+               "whole instrumented runtime scenarios under seeded random schedules (incl. 22 bucket-collision shapes: mutex/rw_mutex types x arrival "
+               "order x which waiter's mutex is unlocked first, and 36 two-arena shapes: creation order x priorities x owner waits/busy); "
+               "distinct = (harness, #threads, access kinds seen, results) classes")
     ck.assumptions += [
         "proved on the models (all schedules): Monitor N x M at atomic-access granularity under sequential consistency; BinSem 1 owner x K "
         "posters; Flag P publishers x C cleaners x T consumers; Tso = the 1 sleeper x 1 notifier monitor instance with per-thread FIFO store "
@@ -653,6 +860,12 @@ def run(ck):
         "concurrent_bounded_queue push/pop, tbb::mutex, tbb::rw_mutex, task_arena::execute slot waits, suspended tasks, thread_request_serializer / "
         "mandatory-concurrency bookkeeping (C16) and worker acquisition from the OS: covered by the monitor theorem only in so far as they use "
         "concurrent_monitor::wait/notify with a matching predicate; otherwise by the sampled end-to-end deadlock monitor, not by theorems",
+        "notify_one_relaxed(pred) (tbb::mutex::unlock -> notify_by_address_one): a no-lost-wake-up THEOREM only under uniqB (the thread waiting on "
+        "the announced condition with the matching context is the only thread that ever waits with that context: one blocked thread per mutex, "
+        "any number of mutexes per bucket: mutex_bucket_collision_no_lost_wakeup); several threads blocked on the SAME mutex (each wake-up hands "
+        "the mutex on, the next unlock wakes the next) is covered by the scan/at-most-one step theorems and the sampled mtx2/mtx3/coll scenarios, "
+        "not by a liveness theorem; which arena the market allots the mandatory worker to (two-arena family) is covered only by the sampled "
+        "whole-runtime scenarios here (the allotment theorem is C16's)",
         "wait_context: WaitCtx = the Monitor model plus the reference counter (only the releaser that reaches zero runs notify_waiters); the "
         "real wait_context + monitor run in the component harness under the implementation-side monitors (no access-level replay of the counter); "
         "the 'arena non-empty' disjunct of the external waiter's predicate is the monitor instance wait_ctx_sleep_no_loss_mixed",
@@ -662,7 +875,8 @@ def run(ck):
         "modelled); the kernel futex, RML thread start/park and timing are not modelled",
     ]
     ck.trusted += ["harness/shim (atomic shim + baton scheduler + futex emulation)", "harness/c02/*.cpp (ghost monitors, notify-site rule)",
-                   "trace abstraction + replay in checks/c02.py (sampled correspondence)", "g++ / x86-TSO mapping of C++ memory orders"]
+                   "trace abstraction + replay in checks/c02.py (sampled correspondence)", "g++ / x86-TSO mapping of C++ memory orders",
+                   "rt2.cpp bucket calibration (two addresses share an address_waiter bucket iff notify_by_address_one tests the same counter)"]
     mon = build_comp("mon")
     rt = build_rt()
     obs = gen(ck, mon, rt)
@@ -677,6 +891,8 @@ def run(ck):
     wctx = build_comp("wctx")
     bad_w = run_wctx(ck, wctx)
     bad_rt, site_dirty, dirty_detail, site_rmw = run_rt(ck, rt)
+    rt2 = build_rt2()
+    bad_rt2 = run_rt2(ck, rt2)
     # ---- failing-input search ---------------------------------------------------------------------------------
     if ck.broken() and not ck.counterexamples:
         log("obligations broke without a counterexample: searching")
@@ -690,7 +906,8 @@ def run(ck):
         if not ck.counterexamples:
             # deeper implementation-side search with the monitors
             budget = "6000" if ck.tier == "quick" else "120000"
-            for scn in MON_CORPUS[:6] if ck.tier == "quick" else MON_CORPUS:
+            order = [scn for name, scn in mon_order_scenarios() if name.split("-")[0] in ("c", "p")]
+            for scn in (order[:12] + MON_CORPUS[:6] if ck.tier == "quick" else order + MON_CORPUS):
                 rc, out, err = sh([mon, "dfs", "3", budget], input=scn + "\n", timeout=900)
                 m = re.search(r"summary runs=(\d+) bad=(\d+)", out)
                 if rc != 0 or not m or m.group(2) != "0":
@@ -720,6 +937,10 @@ def run(ck):
             sub = common.Check("C02", ck.tier, ck.seed + 17)
             b2, _, _, _ = run_rt(sub, rt, nruns=60 if ck.tier == "quick" else 600, seeds=2)
             ck.counterexamples += sub.counterexamples
+        if not ck.counterexamples:
+            sub = common.Check("C02", ck.tier, ck.seed + 29)
+            run_rt2(sub, rt2, nruns=40 if ck.tier == "quick" else 400, seeds=2)
+            ck.counterexamples += sub.counterexamples
 
 
 def replay(ck, obj):
@@ -743,6 +964,11 @@ def replay(ck, obj):
             return 1 if (dirty or nrmw) else 0
         return 1 if out and out[0].startswith("lost") else 0
     h = r.get("harness")
+    if h == "rt2":
+        exe = build_rt2()
+        rc, out, err = sh([exe, r["scenario"], "replay", "-"], input=" ".join(r["schedule"]) + "\n", timeout=900)
+        print("\n".join(l for l in out.split("\n") if not l.startswith("sched"))[-2000:])
+        return 0 if rc == 0 else 1
     if h == "rt":
         exe = build_rt()
         rc, out, err = sh([exe, r["scenario"], "replay", ",".join(r["schedule"])], timeout=600)
